@@ -138,7 +138,15 @@ def purity(repo, res):
                 res.bad(key, fn.where(node), f"{name} writes into its argument {al} although it is not a destination: `{text}`", "no write to arguments", text, rid=r1)
             else:
                 res.ok(key, r1)
-    # Unit.simplify is the documented mutator; latex_repr memoises
+    # Unit.simplify is the documented mutator and the unit rules apply it to operator results: an operator that hands
+    # back one of its operands makes `a * 2` rewrite a's own unit object
+    from rules.common import unit_operators_returning_operand
+
+    simplify_sites = [c for mod in repo.mods() for fns in mod.funcs.values() for f in fns for c in ast.walk(f.node) if isinstance(c, ast.Call) and isinstance(c.func, ast.Attribute) and c.func.attr == "simplify" and isinstance(c.func.value, ast.BinOp)]
+    if not simplify_sites:
+        raise AnalysisError("no (a op b).simplify() call site found")
+    for mf, shared in unit_operators_returning_operand(repo):
+        res.check(not shared, f"unit_object.py:{mf.qualname}:fresh-result", mf.where(), f"{mf.qualname} returns an operand itself on some path and {len(simplify_sites)} call sites simplify() operator results in place: a non-assigning operation (arr * 2) would rewrite the expression and hash of its operand's unit", "a newly built Unit on every path", shared, rid=r1)
     fn = uo.func("Unit.latex_repr")
     w = [t for a, t, n in Effects(fn).writes(fn.node)]
     res.check(all(t.startswith("self._latex_repr =") for t in w), "unit_object.py:Unit.latex_repr", fn.where(), "latex_repr may only memoise the derived LaTeX string", found=w, rid=r1)
@@ -341,6 +349,16 @@ def inplace_twin(repo, res):
     for name in ("_check_em_conversion", "_em_conversion", "get_conversion_factor", "_sanitize_units_convert"):
         ca, cb = calls(a, name), calls(b, name)
         res.check(ca == cb and len(ca) == 1, f"twin:{name}", a.where(), f"in-place and copying conversion must call {name} identically", cb, ca, rid=r3)
+    # the in-place equivalence route is the copying route with `out` threaded through every step (C09-R4/R5)
+    import rules.c09 as c09
+
+    tmp = c09.check(repo)
+    for f in tmp.findings:
+        if f.rule in ("C09-R4", "C09-R5"):
+            res.bad("equivalence:" + f.key.split("/", 1)[1], f.where, f.msg + " - the in-place form then raises or differs from the copying form after the target has been written", f.expected, f.found, rid=r3)
+    n_ok = sum(tmp.rules[r]["discharged"] for r in ("C09-R4", "C09-R5") if r in tmp.rules)
+    for i in range(min(n_ok, 1)):
+        res.ok("equivalence:out-threading", r3)
 
 
 MUTANTS = [
